@@ -48,6 +48,15 @@ def sx_enc(v):
     raise TypeError('cannot encode %r' % (v,))
 
 
+def srclines(s):
+    """the lines of a docstring as the file and the tokenizer count them (parser._splitlines since fix F28): broken at
+    newlines and carriage returns only, a final empty piece dropped"""
+    lines = re.split('\r\n|\r|\n', s)
+    if lines and lines[-1] == '':
+        lines.pop()
+    return lines
+
+
 def some(v):
     return [Sym('some'), v]
 
